@@ -133,7 +133,7 @@ theorem create_spec {dt : Data} {s : Store} {ch : List Int} {data : List Nat} {r
 
 /-- all clones except possibly the new one have their `_data` key -/
 theorem create_full_except {dt : Data} {s : Store} {ch : List Int} {data : List Nat} {r : Store × Int}
-    (h : s.createRootNode dt ch data = some r) (hs : Inv s) (hd : Dense s)
+    (h : s.createRootNode dt ch data = some r) (hs : Inv0 s) (hd : Dense s)
     (hfresh : ∀ x ∈ data, x ∉ vals s.data) :
     ∀ n ∈ r.1.forest.recs, n.name ≠ r.2 → n.name ∈ keys r.1.data := by
   obtain ⟨_, _, _, hn, _, hdat⟩ := create_spec h hs.1 hd hfresh
@@ -148,8 +148,8 @@ theorem create_full_except {dt : Data} {s : Store} {ch : List Int} {data : List 
     · simp only [keys, List.map_append, List.mem_append]; exact Or.inl hk
 
 theorem create_inv {dt : Data} {s : Store} {ch : List Int} {data : List Nat} {r : Store × Int}
-    (h : s.createRootNode dt ch data = some r) (hs : Inv s) (hd : Dense s) (hne : data ≠ [])
-    (hfresh : ∀ x ∈ data, x ∉ vals s.data) : Inv r.1 ∧ Dense r.1 := by
+    (h : s.createRootNode dt ch data = some r) (hs : Inv0 s) (hd : Dense s) (hne : data ≠ [])
+    (hfresh : ∀ x ∈ data, x ∉ vals s.data) : Inv0 r.1 ∧ Dense r.1 := by
   obtain ⟨_, hw, hd', _, _, hdat⟩ := create_spec h hs.1 hd hfresh
   refine ⟨⟨hw, fun n hn => ?_⟩, hd'⟩
   by_cases hc : n.name = r.2
@@ -173,7 +173,7 @@ theorem create_data {dt : Data} {s : Store} {ch : List Int} {data : List Nat} {r
 /-- `create_root_node(children)` followed by `add_data_point_to_node(dp, new node)` -/
 theorem createAdd_inv {dt : Data} {s s' : Store} {ch : List Int} {dp : Nat} {r : Store × Int}
     (h1 : s.createRootNode dt ch [] = some r) (h2 : r.1.addDataPointToNode dt dp r.2 = some s')
-    (hs : Inv s) (hd : Dense s) : Inv s' ∧ Dense s' ∧ (vals s'.data).Perm (dp :: vals s.data) := by
+    (hs : Inv0 s) (hd : Dense s) : Inv0 s' ∧ Dense s' ∧ (vals s'.data).Perm (dp :: vals s.data) := by
   have hfresh : ∀ x ∈ ([] : List Nat), x ∉ vals s.data := by simp
   obtain ⟨_, hw, hd', _, _, _⟩ := create_spec h1 hs.1 hd hfresh
   refine ⟨⟨addDp_wf h2 hw, addDp_full h2 hw (create_full_except h1 hs hd hfresh)⟩,
